@@ -311,12 +311,12 @@ SRC_EXT = ['.c', '.cpp', '.cc']
 DEFOPT_VALUES: T.Dict[str, T.List[str]] = {
     'buildtype': ['debug', 'release', 'plain', 'minsize'],
     'warning_level': ['0', '1', '2', '3'],
-    'werror': ['true', 'false'],
-    'debug': ['true', 'false'],
+    'werror': ['true', 'false', 'True', 'FALSE'],
+    'debug': ['true', 'false', 'TRUE', 'False'],
     'optimization': ['0', '2', 's', 'g'],
     'default_library': ['shared', 'static', 'both'],
     'unity': ['on', 'off', 'subprojects'],
-    'strip': ['true', 'false'],
+    'strip': ['true', 'false', 'tRuE'],
     'prefix': ['/usr', '/opt/x'],
     'layout': ['mirror', 'flat'],
 }
@@ -806,8 +806,15 @@ def _target_id(rng: random.Random, rec: M.CallRec) -> str:
     return rec.name if isinstance(rec.name, str) else (rec.var or '?')
 
 
+# spellings of a boolean a user may type (the rewriter accepts them case-insensitively); a string value reaches
+# the rewriter from the command line and from a JSON command that carries "True" instead of true
+BOOL_SPELLINGS = ['true', 'false', 'True', 'False', 'TRUE', 'FALSE', 'tRuE', 'fAlSe']
+
+
 def _kw_value(rng: random.Random, typ: str, m: M.Model) -> T.Any:
     if typ == 'bool':
+        if rng.random() < 0.4:
+            return rng.choice(BOOL_SPELLINGS)
         return rng.choice([True, False])
     if typ == 'str':
         return rng.choice(VALUE_STRINGS)
